@@ -780,8 +780,9 @@ def main(argv=None):
             "clauses_decided": meta.get("decided", []),
             "clauses_not_decided": meta.get("not_decided", []),
             "bounded_standins": bounded_results,
+            "memoised_functions": (getattr(build_db(), "memo_inventory", []) if prop == "C14" else []),
             "extraction_drops": ["type annotations", "docstrings", "__slots__", "comments",
-                                 "functools.lru_cache treated as transparent", "logger calls"],
+                                 "functools.lru_cache treated as transparent (C14: the adequacy of each memoised function's cache key is a separate generated obligation, pyvc/memo.py)", "logger calls"],
             "known_findings_printed": known_printed,
             "solver_disagreements": disagreements,
             "second_solver_confirmation": confirmations,
